@@ -156,7 +156,11 @@ pub fn check(c: &Case) -> Outcome {
             for (ti, yi) in p.t.iter().zip(&p.y).step_by(stride) {
                 match s.sol(*ti) {
                     Ok(v) => {
-                        let tol = 1e-10 * (1.0 + inf_norm(yi));
+                        // a time is only known to an ulp: theta = (t - xold)/h is 1 only to ulp(t)/h, and the state moves
+                        // by |f| per unit of time (a run approaching a pole has |f| ulp(t) far above 1e-10 |y|)
+                        let mut fy = vec![0.0; yi.len()];
+                        crate::instr::Rhs::f(&prob, *ti, yi, &mut fy);
+                        let tol = 1e-10 * (1.0 + inf_norm(yi)) + 8.0 * inf_norm(&fy) * ulp(ti.abs());
                         if max_abs_diff(&v, yi) > tol {
                             return Outcome::viol(format!("{}: sol({:e}) differs from the plain run's state there by {:e}", tag, ti, max_abs_diff(&v, yi)));
                         }
